@@ -128,6 +128,24 @@ def run(F, ctx):
         raise CheckError("only %d StorageEngine->KnowledgeGraph mutator call sites found" % n_sites)
     ctx.end_rule()
 
+    # ---- e: one request batch, one hold of the write lock, one publication
+    ctx.rule("R-C20-e", "a request batch is applied to the served state by one mutator call under one hold of the graph's write lock (never chunk by chunk)", floor=2)
+    n_b = 0
+    for (entry, mut) in ((SE + "::insert_tuples_into", KG + "::insert_in_memory"), (SE + "::delete_tuples_from", KG + "::delete_in_memory")):
+        f = F.fn(entry)
+        loops = dur.loop_blocks(f)
+        calls = [c for c in f.normal_calls() if c.resolved == mut]
+        if not calls:
+            raise CheckError("%s no longer calls %s" % (entry, mut))
+        acq = [c for (c, fld, md) in common.lock_acquisitions(f) if md == "write" and "KnowledgeGraph" in (c.static_args or "")]
+        for c in calls:
+            n_b += 1
+            ok = c.bb not in loops and not any(a.bb in loops for a in acq)
+            ctx.site("%s: %s applied once, lock taken once" % (entry.split("::")[-1], mut.split("::")[-1]), c.where(), ok=ok)
+            if not ok:
+                ctx.violation("%s:R-C20-e:batch-applied-in-pieces" % entry, "%s applies one request batch in several mutator calls, re-taking the write lock (and publishing a snapshot) for each piece: a concurrent reader can load a snapshot that holds only the first part of the batch" % entry.split("::")[-1], c.where())
+    ctx.end_rule()
+
     # ---- c
     ctx.rule("R-C20-c", "one snapshot load per read entry point; live engine map touched only by the enumerated functions; snapshot cell stored only by publish_snapshot", floor=10)
     loaders = [n for n in F.callers(SNAP)]
